@@ -164,8 +164,8 @@ _PAIRS_T = _PAIRS_Q + [("prop-text", "prop-text"), ("param-text", "comp"), ("com
 HARNESSES = [
     Harness("lemma", h_lemma, body_lemma,
             classes=[(sh + ":hit", sh) for sh in _calq.SHAPES if not sh.startswith("param")],
-            parts={"quick": list(_calq.SHAPES)}, bounds=_B, budget={"quick": 60, "thorough": 420},
-            real_replay=real_lemma,
+            parts={"quick": list(_calq.SHAPES) + [sh for sh in _calq.SHAPES2 if "param" not in sh]}, bounds=_B,
+            budget={"quick": 60, "thorough": 420}, real_replay=real_lemma,
             describe="check_from_indexes(name, file.get_indexes(keys)) == check(name, file); part = filter shape",
             encodes=["xandikos.icalendar.CalendarFilter.check_from_indexes", "xandikos.icalendar.CalendarFilter.index_keys",
                      "xandikos.icalendar.ComponentFilter.match_indexes", "xandikos.icalendar.ComponentFilter.index_keys",
